@@ -6,6 +6,8 @@ import re
 
 from ..core import (AnalysisError, body_nodes, call_name, dotted, in_loop, is_self_attr, key_text,
                     kwarg, names_in, params, parent, stmts_of, unparse)
+from ..normal import inline_temps
+from ..pattern import P, pmatch
 from ..flow import check_errflow
 
 MPS = 'tenpy/networks/mps.py'
@@ -158,19 +160,24 @@ def check_form_flow(prog, rep):
                       'after theta = U S VH the left-isometry U goes to site i in form A, VH to '
                       'site i+1 in form B and S to the bond between them', f.lineno)
     # get_B: left scaling with SL/nu[0], right scaling with SR/nu[1]
-    f = m.func('MPS.get_B')
+    f = inline_temps(m.func('MPS.get_B'))
     rep.instance('MPS-form-flow', {'function': 'MPS.get_B'})
     pairs = []
     for c in body_nodes(f):
         if isinstance(c, ast.Call) and dotted(c.func) == 'self._scale_axis_B' and len(c.args) >= 4:
-            pairs.append((unparse(c.args[1]), unparse(c.args[2]), unparse(c.args[3])))
-    want = {('self.get_SL(i)', 'new_form[0] - old_form[0]', "'vL'"),
-            ('self.get_SR(i)', 'new_form[1] - old_form[1]', "'vR'")}
+            e = pmatch('$$new[$$k] - $$old[$$k]', c.args[2])
+            if e and isinstance(e['$$k'], ast.Constant) and \
+                    pmatch('self._to_valid_form(form)', e['$$new']) and \
+                    pmatch('self.form[$$i]', e['$$old']):
+                pairs.append((unparse(c.args[1]), e['$$k'].value, unparse(c.args[3])))
+            else:
+                pairs.append((unparse(c.args[1]), unparse(c.args[2])[:60], unparse(c.args[3])))
+    want = {('self.get_SL(i)', 0, "'vL'"), ('self.get_SR(i)', 1, "'vR'")}
     if set(pairs) != want:
         rep.violation('MPS-form-flow', m, 'MPS.get_B', 'side-pairing',
                       'form conversion must scale leg vL with the LEFT singular values by the '
-                      'change of nuL and vR with the RIGHT ones by the change of nuR (got %s)' %
-                      sorted(pairs), f.lineno)
+                      'change of nuL (= new_form[0] - old_form[0]) and vR with the RIGHT ones by '
+                      'the change of nuR (got %s)' % sorted(pairs, key=str), f.lineno)
     # _valid_forms table
     rep.instance('MPS-form-table', {})
     cls = m.cls('MPS')
